@@ -397,6 +397,11 @@ fn minimise(sc: &Scenario, seed: u64, class: &str) -> Scenario {
                     Step::Cancel => {
                         let _ = set(&mut cur, vec![Step::CDrop]) || set(&mut cur, vec![clean.clone(), Step::CDrop]);
                     }
+                    // a bare poll that is needed only to let time pass for a future: prefer
+                    // the fault-free round (normal form shared with the directed scripts)
+                    Step::Poll => {
+                        let _ = set(&mut cur, vec![clean.clone()]);
+                    }
                     Step::CShut => {
                         let _ = set(&mut cur, vec![Step::CDrop]);
                     }
